@@ -22,16 +22,15 @@ import OSq.Model.Front
   * `call_eq`, `call_ok_iff`   `Builder.call` = resolve ; check arguments ; refuse surplus ; generate ; append.
   * `call_reject_unchanged`    a refused request leaves the builder as it was.
   * `call_accept_appends`      an accepted one appends exactly one statement, registers unchanged.
-  * `call_accept_wf`           (C13/C20, `tableTyped` table) appended statement is named `⟨resolved name, converted
+  * `call_accept_wf_typed`           (C13/C20, `tableTyped` table) appended statement is named `⟨resolved name, converted
                                args⟩`, `#args = #params`, kinds as declared, and `Stmt.wf` holds.
   * `call_accept_wf_partial`   arbitrary table: all of the above except "gate operands in range" (false in general,
                                `call_accept_wf_needs_typed`), with "operands are qubit-or-int arguments" instead.
   * `coherent_by_construction` re-running the generator on the recorded name and arguments gives the recorded
                                statement (`callGate … nm.name nm.args = .ok (g, nm)`).
-  * `comment_accept_wf`, `step_wf`, `builder_wf`   any sequence of requests to a fresh builder yields `Circuit.wf`.
+  * `comment_accept_wf`, `step_wf`, `builder_wf_partial`   any sequence of requests to a fresh builder yields `Circuit.wf`.
   * `run_sizes`                the register sizes never change.
-  * `defaultLib_typed`         the default gate table obeys `tableTyped`.
-  * error table (`call_errors_table`), in precedence order: `signature_error`, `signature_unknown`, `call_unknown`,
+  * `call_errors_table`        the complete decision table; its rows separately, in precedence order: `signature_error`, `signature_unknown`, `call_unknown`,
     `call_unknown_name` (⇒ `ValueError`); `call_checkArgs_error`, `call_bad_arg` (first bad argument: wrong kind ⇒
     `TypeError`, out of register ⇒ `IndexError`), `call_missing_arg` (⇒ `IndexError`); `call_surplus` (⇒ `TypeError`);
     `call_generator_error`, `mkCtrl_error_iff`, `call_ctrl_eq_target_default` (control = target ⇒ `ValueError`).
@@ -440,12 +439,12 @@ theorem call_accept_appends {atol : α} {lib : GateLib} {b b' : Builder α} {nam
   obtain ⟨n, ps, as, s, _, _, _, _, rfl⟩ := call_ok_iff.1 h
   exact ⟨s, rfl, rfl, rfl⟩
 
-/-- **`call_accept_wf`** (C13, C20).  For every library whose gate table obeys `tableTyped` (the default one
+/-- **`call_accept_wf_typed`** (C13, C20).  For every library whose gate table obeys `tableTyped` (the default one
     does, `defaultLib_typed`) an accepted request appends a statement `s` that
     * is *named*: it records the resolved name `n` and the converted arguments `as`,
     * has exactly as many arguments as the generator has parameters, each of the declared kind,
     * is well formed: qubit operands in `0..nQubits-1`, bit index in `0..nBits-1`, operands pairwise distinct. -/
-theorem call_accept_wf {atol : α} {lib : GateLib} (hT : tableTyped lib.table = true) {b b' : Builder α}
+theorem call_accept_wf_typed {atol : α} {lib : GateLib} (hT : tableTyped lib.table = true) {b b' : Builder α}
     {name : String} {args : List (PyArg α)} (h : b.call atol lib name args = .ok b') :
     ∃ s n ps as, b'.stmts = b.stmts ++ [s] ∧ b'.nQubits = b.nQubits ∧ b'.nBits = b.nBits ∧
       lib.signature name = .ok (n, ps) ∧ checkArgs b.nQubits b.nBits ps args = .ok as ∧
@@ -455,7 +454,7 @@ theorem call_accept_wf {atol : α} {lib : GateLib} (hT : tableTyped lib.table = 
   obtain ⟨h1, _, h3, _, _⟩ := checkArgs_ok hc
   exact ⟨s, n, ps, as, rfl, rfl, rfl, hs, hc, hl, h1, h3, (build_named hs hc hb).1, build_wf hT hs hc hb⟩
 
-/- Intended statement of `call_accept_wf`: the same for an *arbitrary* table.  That is false, in the model and in
+/- Intended statement of `call_accept_wf_typed`: the same for an *arbitrary* table.  That is false, in the model and in
    Python alike: `named_gate` converts by annotation, so a user gate `def bad(q: QubitLike, k: SupportsInt): return
    CNOT(q, k)` turns the unchecked integer `k` into a qubit index (`Qubit(Int(k))` is legal); the builder checks
    only `q`.  See `call_accept_wf_needs_typed` below for the counterexample.  What holds for an arbitrary table: -/
@@ -470,11 +469,12 @@ theorem call_accept_wf_partial {atol : α} {lib : GateLib} {b b' : Builder α}
       s.named = some ⟨n, as⟩ ∧
       (∀ g nm, s = .gate g nm → hasDup g.operands = false ∧ g.shapeOk = true ∧ g.noMatrix = true ∧
           g.ctrlOk = true ∧ ∀ q ∈ g.operands, Arg.qubit q ∈ as ∨ Arg.int q ∈ as) ∧
-      (s.isGate = false → Stmt.wf b.nQubits b.nBits s = true) := by
+      (s.isGate = false → Stmt.wf b.nQubits b.nBits s = true) ∧
+      (tableTyped lib.table = true → Stmt.wf b.nQubits b.nBits s = true) := by
   obtain ⟨n, ps, as, s, hs, hc, hl, hb, rfl⟩ := call_ok_iff.1 h
   obtain ⟨h1, _, h3, h4, _⟩ := checkArgs_ok hc
   obtain ⟨k1, k2, k3, k4, k5⟩ := build_named hs hc hb
-  refine ⟨s, n, ps, as, rfl, rfl, rfl, hs, hc, hl, h1, h3, h4, k1, ?_, ?_⟩
+  refine ⟨s, n, ps, as, rfl, rfl, rfl, hs, hc, hl, h1, h3, h4, k1, ?_, ?_, fun hT => build_wf hT hs hc hb⟩
   · intro g nm hg
     obtain ⟨a, b, c, d, _⟩ := k2 g nm hg
     refine ⟨a, b, c, d, ?_⟩
@@ -549,7 +549,7 @@ theorem step_wf {atol : α} {lib : GateLib} (hT : tableTyped lib.table = true) (
     cases h : b.call atol lib name args with
     | error e => exact hb
     | ok b' =>
-      obtain ⟨s, n, ps, as, h1, h2, h3, _, _, _, _, _, _, hwf⟩ := call_accept_wf hT h
+      obtain ⟨s, n, ps, as, h1, h2, h3, _, _, _, _, _, _, hwf⟩ := call_accept_wf_typed hT h
       simp only [Circuit.wf, Builder.toCircuit, h1, h2, h3, List.all_append, List.all_cons, List.all_nil,
         Bool.and_true, Bool.and_eq_true]
       exact ⟨hb, hwf⟩
@@ -563,9 +563,9 @@ theorem step_wf {atol : α} {lib : GateLib} (hT : tableTyped lib.table = true) (
         Bool.and_true, Bool.and_eq_true]
       exact ⟨hb, hwf⟩
 
-/-- **`builder_wf`**: whatever sequence of requests (accepted or refused) is made to a fresh builder, the
+/-- **`builder_wf_partial`**: whatever sequence of requests (accepted or refused) is made to a fresh builder, the
     circuit it hands out is well formed. -/
-theorem builder_wf {atol : α} {lib : GateLib} (hT : tableTyped lib.table = true) (nq nb : Nat)
+theorem builder_wf_partial {atol : α} {lib : GateLib} (hT : tableTyped lib.table = true) (nq nb : Nat)
     (cmds : List (Cmd α)) :
     Circuit.wf (Builder.run atol lib ⟨nq, nb, []⟩ cmds).toCircuit = true := by
   suffices ∀ b : Builder α, Circuit.wf b.toCircuit = true →
@@ -595,9 +595,6 @@ theorem run_sizes {atol : α} {lib : GateLib} (b : Builder α) (cmds : List (Cmd
     have := ih (b.step atol lib c)
     simp only [Builder.run, List.foldl_cons] at this ⊢
     omega
-
-/-- the default library obeys the discipline -/
-theorem defaultLib_typed : tableTyped defaultLib.table = true := by decide
 
 /-! ### `call_errors_table`: which request is refused with which exception, in precedence order -/
 
@@ -677,6 +674,28 @@ theorem call_generator_error {atol : α} {lib : GateLib} {b : Builder α} {name 
   have : ¬ args.length > ps.length := by omega
   rw [call_eq, hs]; simp only [bind, Except.bind, hc, this, if_false, hb]
 
+/-- **`call_errors_table`**: the complete decision table of a request, in the model's precedence order.
+    1. name not resolvable ⇒ `ValueError`;
+    2. otherwise the argument check (`checkArgs_error_iff`: first offending position; missing ⇒ `IndexError`, wrong
+       kind ⇒ `TypeError`, out of register ⇒ `IndexError`) ⇒ its error;
+    3. otherwise surplus arguments ⇒ `TypeError`;
+    4. otherwise a failing generator (e.g. control = target ⇒ `ValueError`, `mkCtrl_error_iff`) ⇒ its error;
+    5. otherwise the statement is appended. -/
+theorem call_errors_table {atol : α} {lib : GateLib} {b : Builder α} {name : String} {args : List (PyArg α)} :
+    (∀ e, lib.signature name = .error e → b.call atol lib name args = .error .value) ∧
+    (∀ n ps, lib.signature name = .ok (n, ps) →
+      (∀ e, checkArgs b.nQubits b.nBits ps args = .error e → b.call atol lib name args = .error e) ∧
+      (∀ as, checkArgs b.nQubits b.nBits ps args = .ok as →
+        (args.length > ps.length → b.call atol lib name args = .error .type) ∧
+        (args.length ≤ ps.length → ∀ e, lib.build atol name n as = .error e →
+          b.call atol lib name args = .error e) ∧
+        (args.length ≤ ps.length → ∀ s, lib.build atol name n as = .ok s →
+          b.call atol lib name args = .ok { b with stmts := b.stmts ++ [s] }))) := by
+  refine ⟨fun e h => call_unknown h, fun n ps hs => ⟨fun e hc => call_checkArgs_error hs hc, fun as hc =>
+    ⟨fun hl => call_surplus hs hc hl, fun hl e hb => call_generator_error hs hc hl hb, fun hl s hb => ?_⟩⟩⟩
+  have hle := (checkArgs_ok hc).2.1
+  exact call_ok_iff.2 ⟨n, ps, as, s, hs, hc, by omega, hb, rfl⟩
+
 omit [Scalar α] in
 /-- (4a) `ControlledGate.__init__`: **control among the target's operands ⇒ `ValueError`** -/
 theorem mkCtrl_error_iff {c : Int} {g : Gate α} {e : Err} :
@@ -718,12 +737,12 @@ theorem call_ctrl_eq_target_default {atol : α} {b : Builder α} {i : Int} (h0 :
 
 /-! ### examples (non-vacuity) -/
 
-/-- `call_accept_wf`, every scalar type: `reset(1)` on a 2-qubit builder is accepted -/
+/-- `call_accept_wf_typed`, every scalar type: `reset(1)` on a 2-qubit builder is accepted -/
 example (atol : α) : ∃ b', Builder.call atol defaultLib ⟨2, 2, []⟩ "reset" [.int 1] = .ok b' ∧
     Circuit.wf b'.toCircuit = true := by
   have h : Builder.call atol defaultLib ⟨2, 2, []⟩ "reset" [.int 1] =
       .ok ⟨2, 2, [.reset 1 (some ⟨"reset", [.qubit 1]⟩)]⟩ := rfl
-  obtain ⟨s, n, ps, as, h1, _, _, _, _, _, _, _, _, hwf⟩ := call_accept_wf defaultLib_typed h
+  obtain ⟨s, n, ps, as, h1, _, _, _, _, _, _, _, _, hwf⟩ := call_accept_wf_typed defaultLib_typed h
   refine ⟨_, h, ?_⟩
   simp only [List.nil_append, List.cons.injEq, and_true] at h1
   subst h1
@@ -753,8 +772,8 @@ example (atol : α) : Builder.call atol defaultLib ⟨2, 2, []⟩ "reset" [.int 
 example (atol : α) : Builder.call atol defaultLib ⟨2, 2, []⟩ "CNOT" [.int 1, .int 1] = .error .value :=
   call_ctrl_eq_target_default (b := ⟨2, 2, []⟩) (by decide) (by simp)
 
-/-- closed instance at the toy scalar: `H(0); CNOT(0,1); CNOT(1,1)` (refused); `measure(0,0)`; a bad comment
-    (refused); a good comment — four statements, well formed, and the gate statement is coherent -/
+/-- closed instance at the toy scalar: `CNOT(0, Qubit(1))` on a 2-qubit builder is accepted, acts on `[0, 1]`,
+    and the circuit is well formed -/
 example : ∃ b', Builder.call (⟨0⟩ : Toy) defaultLib ⟨2, 2, []⟩ "CNOT" [.int 0, .qubit 1] = .ok b' ∧
     b'.stmts.map Stmt.qubits = [[0, 1]] ∧ Circuit.wf b'.toCircuit = true := by
   have hf : defaultLib.table.find? (·.name == "CNOT") = some
@@ -774,14 +793,21 @@ example : ∃ b', Builder.call (⟨0⟩ : Toy) defaultLib ⟨2, 2, []⟩ "CNOT" 
       evalNamed, hx, SExpr.eval, bind, Except.bind, pure, Except.pure, mkBSR, toy_axis_x, mkCtrl, hasDup,
       Gate.operands]
   refine ⟨_, h, rfl, ?_⟩
+  -- `coherent_by_construction` and `call_accept_wf_partial` apply to it
+  obtain ⟨s, nm, _, _, _, _⟩ := coherent_by_construction h
+  obtain ⟨s', _, _, _, _⟩ := call_accept_wf_partial h
   have := step_wf (atol := (⟨0⟩ : Toy)) defaultLib_typed ⟨2, 2, []⟩ (.call "CNOT" [.int 0, .qubit 1]) rfl
   simpa [Builder.step, h] using this
 
-/-- `builder_wf` needs no hypothesis beyond `tableTyped`: here on a sequence with refused requests -/
+/-- `call_reject_unchanged`: the refused `CNOT(1, 1)` leaves the builder as it was -/
+example (atol : α) : Builder.step atol defaultLib ⟨2, 2, []⟩ (.call "CNOT" [.int 1, .int 1]) = ⟨2, 2, []⟩ :=
+  call_reject_unchanged (call_ctrl_eq_target_default (b := ⟨2, 2, []⟩) (by decide) (by simp))
+
+/-- `builder_wf_partial` needs no hypothesis beyond `tableTyped`: here on a sequence with refused requests -/
 example (atol : α) : Circuit.wf (Builder.run atol defaultLib ⟨2, 2, []⟩
     [.call "H" [.int 0], .call "CNOT" [.int 0, .int 1], .call "CNOT" [.int 1, .int 1], .call "nope" [],
      .call "measure" [.int 0, .bit 0], .comment "a */ b", .comment "fine"]).toCircuit = true :=
-  builder_wf defaultLib_typed 2 2 _
+  builder_wf_partial defaultLib_typed 2 2 _
 
 /-! ### `tableTyped` is needed -/
 
@@ -799,7 +825,7 @@ def badLib : GateLib where
 /-- **`call_accept_wf_needs_typed`**: with `badLib` the builder *accepts* `bad(0, 7)` on a 2-qubit register
     (the `7` is a legitimate `SupportsInt` argument) and appends a gate acting on qubit `7`: the circuit is not
     well formed.  (Same in Python: `Qubit(Int(7))` is legal and the builder only range-checks `QubitLike`
-    parameters.)  Hence the hypothesis `tableTyped` of `call_accept_wf` / `builder_wf` cannot be dropped. -/
+    parameters.)  Hence the hypothesis `tableTyped` of `call_accept_wf_typed` / `builder_wf_partial` cannot be dropped. -/
 theorem call_accept_wf_needs_typed : tableTyped badLib.table = false ∧
     ∃ b', Builder.call (⟨0⟩ : Toy) badLib ⟨2, 0, []⟩ "bad" [.int 0, .int 7] = .ok b' ∧
       b'.stmts.map Stmt.qubits = [[0, 7]] ∧ Circuit.wf b'.toCircuit = false := by
@@ -827,11 +853,11 @@ end OSq
 #print axioms OSq.call_ok_iff
 #print axioms OSq.call_reject_unchanged
 #print axioms OSq.call_accept_appends
-#print axioms OSq.call_accept_wf
+#print axioms OSq.call_accept_wf_typed
 #print axioms OSq.call_accept_wf_partial
 #print axioms OSq.coherent_by_construction
-#print axioms OSq.builder_wf
-#print axioms OSq.defaultLib_typed
+#print axioms OSq.builder_wf_partial
+#print axioms OSq.call_errors_table
 #print axioms OSq.call_unknown_name
 #print axioms OSq.call_bad_arg
 #print axioms OSq.call_missing_arg
